@@ -13,7 +13,8 @@ func RepoSquash(stores context2.Stores, repoName string, opts ...Option) error {
 		return fmt.Errorf("cannot find repo: %s: %v", repoName, err)
 	}
 
-	opts = append(opts, WithMinimalBundle(true)) // limits I/Os with remote store: we only need keys
+	// NOTE: bundle descriptors are read (no WithMinimalBundle): file lists left behind by an interrupted
+	// upload have no descriptor and must not count as bundles when deciding what to retain
 
 	bundles, err := ListBundles(repoName, stores, opts...)
 	if err != nil {
